@@ -20,6 +20,7 @@ import (
 	"github.com/xakep666/ps3netsrv-go/internal/kongutil"
 	"github.com/xakep666/ps3netsrv-go/internal/verifrt"
 	"github.com/xakep666/ps3netsrv-go/internal/verifstub"
+	pfs "github.com/xakep666/ps3netsrv-go/pkg/fs"
 )
 
 type verifHandleState struct {
@@ -28,6 +29,8 @@ type verifHandleState struct {
 	written int64           // bytes received through ReadFrom/Write
 	chunks  int
 	text    int // formatted text written to this handle
+	data    []byte // the bytes received, in order (kept only when keep is set)
+	keep    bool
 }
 
 var verifOS struct {
@@ -61,6 +64,9 @@ func verifStub_os_File_ReadFrom(f *os.File, r io.Reader) (int64, error) {
 	for {
 		n, err := r.Read(buf)
 		total += int64(n)
+		if h.keep && n > 0 {
+			h.data = append(h.data, buf[:n]...)
+		}
 		if n > 0 {
 			h.chunks++
 		}
@@ -78,6 +84,9 @@ func verifStub_os_File_Write(f *os.File, p []byte) (int, error) {
 	h := verifHandle(f)
 	h.written += int64(len(p))
 	h.chunks++
+	if h.keep {
+		h.data = append(h.data, p...)
+	}
 	return len(p), nil
 }
 func verifStub_os_File_Read(f *os.File, p []byte) (int, error) { return verifHandle(f).backing.Read(p) }
@@ -222,6 +231,21 @@ func VerifC20_MakeISO() {
 		}
 	}
 	verifrt.Assert(verifOS.tree.L.Opened == verifOS.tree.L.Closed, "makeiso.source-files-closed")
+
+	// "exactly the image the server would serve", length half: a second image object of the same tree (what the
+	// server builds for the same directory) has exactly the length that was written. (Byte-wise equality of the two
+	// was tried and is out of reach here: 131072 positions, each a solver query, > 20 min.)
+	ref, rerr := pfs.NewVirtualISO(verifOS.tree, "/src", false)
+	verifrt.Assert(rerr == nil, "makeiso.reference-image")
+	if rerr != nil {
+		return
+	}
+	total, _ := ref.Seek(0, io.SeekEnd)
+	verifrt.Assert(h.written == total, "makeiso.length-equals-served-image")
+	if h.written != total {
+		return
+	}
+	_ = ref.Close()
 }
 
 func verifEncImage() *verifstub.File {
